@@ -587,7 +587,10 @@ def run_model(lib, part, par, js, feat, arg, do_fd):
         mi = c["mi"]
         qs = A.qpos_lattice(m, quat_levels=A.QUATS[:3], limit=2)
         vm = A.qvel_lattice(mi.nv, units=False)[-1]
-        states = [(qs[-1], vm, 1)]
+        # k selects ctrl from [0.6, -0.4, 0.9]: with ctrlrange="-0.4 0.6" that is the upper end, the lower end and outside the
+        # range, so the one-sided fallbacks of the control columns are all exercised
+        ks = (1, 0, 2) if (feat == "act" and "ctrllimited" in arg[4]) else (1,)
+        states = [(qs[-1], vm, k) for k in ks]
         integs = [U.INT_EULER, U.INT_IMPLICIT, U.INT_IMPLICITFAST, U.INT_RK4]
         part_b(lib, part, c, ident, states, integs)
         part_c(lib, part, c, ident, states, integs)
